@@ -31,7 +31,7 @@ func TestC04ExpiryVsEjectionRace(t *testing.T) {
 	b := lb.VerifBackends()[0]
 	var cur atomic.Int32
 	wd := lab.StartWatchdog(t.Name(), "expiry-vs-ejection-race", lab.NoProgress, func() any { return map[string]int32{"expiry_checkers": cur.Load()} })
-	defer wd.Stop()
+	defer func() { wd.Stop() }() // the watchdog armed last (wd is re-assigned below), not the first one
 	progress := time.Now()
 	for r := 0; r < rounds; r++ {
 		if time.Since(progress) > 5*time.Second { // re-arm: the watchdog guards progress, not the total run time
